@@ -37,6 +37,8 @@ KINDS = {
     "D": dict(span=(0, 1), alleles="0,1"),  # tie when both variants are in one set
     "E": dict(span=None),  # covers no variant
     "F": dict(span=(2, 3), hap=1),
+    "Z": dict(span=(1, 2), alleles="0,1", exact=True),  # starts exactly at a variant, ends exactly behind one: a tie that hinges on both boundary variants
+    "Y": dict(span=(2, 3), hap=0, exact=True),
     "M": dict(mate=True, span=(2, 3)),  # mate of the previous alignment (same haplotype)
     "S": dict(supp=True, span=(3, 3)),  # supplementary of the previous one, other haplotype's allele
     "X": dict(secondary=True, span=(0, 1)),  # secondary of the previous one
@@ -89,6 +91,8 @@ def make_alignments(kinds, seq, variants):
         else:
             a_, b_ = span
             start, end = POS[a_] - 12 - i, POS[b_] + 12 + i
+            if spec.get("exact"):
+                start, end = POS[a_], POS[b_] + 1
             if "alleles" in spec:
                 src = [int(x) for x in spec["alleles"].split(",")]
             elif spec.get("supp"):
